@@ -307,7 +307,7 @@ def gen_c03(tier, seed):
 def gen_c04(tier, seed):
     rng = random.Random(seed * 3001 + 4)
     out = []
-    N = 500 if tier == "quick" else 60000
+    N = 1500 if tier == "quick" else 60000
     for idx in range(N):
         entry = rng.randrange(6)
         T = rng.choice([1, 1, 2, 3, 4])
@@ -396,7 +396,7 @@ def gen_c04(tier, seed):
 def gen_c05(tier, seed):
     rng = random.Random(seed * 2003 + 5)
     out = []
-    N = 500 if tier == "quick" else 60000
+    N = 1500 if tier == "quick" else 60000
     for idx in range(N):
         entry = rng.randrange(6)
         T = rng.choice([1, 1, 1, 2, 3, 4])
@@ -565,7 +565,7 @@ def gen_c08_panic(tier, seed):
 def gen_c19(tier, seed):
     rng = random.Random(seed * 503 + 19)
     out = []
-    N = 300 if tier == "quick" else 15000
+    N = 600 if tier == "quick" else 15000
     for idx in range(N):
         entry = rng.randrange(6)
         T = rng.choice([1, 1, 2, 4])
